@@ -48,29 +48,35 @@ def bc1Fill (c : UInt64 → UInt32) : Nat → UInt64 → List UInt32 → List UI
   | _ + 1, _, [] => []
   | n + 1, d, _ :: ps => c d :: bc1Fill c n (d >>> 2) ps
 
+/-- the palette `c : [u32; 4]` that `decode_bc1_block` builds from the two endpoints -/
+def bc1Palette (q0 q1 : UInt16) : UInt32 × UInt32 × UInt32 × UInt32 :=
+  let (r0, g0, b0) := rgb565le q0
+  let (r1, g1, b1) := rgb565le q1
+  let c0 := color r0 g0 b0 255
+  let c1 := color r1 g1 b1 255
+  -- "C insanity": the channels are widened to u16 for the interpolation
+  let r0 := r0.toUInt16; let g0 := g0.toUInt16; let b0 := b0.toUInt16
+  let r1 := r1.toUInt16; let g1 := g1.toUInt16; let b1 := b1.toUInt16
+  if q0 > q1 then
+    (c0, c1,
+     color ((r0 * 2 + r1) / 3).toUInt8 ((g0 * 2 + g1) / 3).toUInt8 ((b0 * 2 + b1) / 3).toUInt8 255,
+     color ((r0 + r1 * 2) / 3).toUInt8 ((g0 + g1 * 2) / 3).toUInt8 ((b0 + b1 * 2) / 3).toUInt8 255)
+  else
+    (c0, c1,
+     color ((r0 + r1) / 2).toUInt8 ((g0 + g1) / 2).toUInt8 ((b0 + b1) / 2).toUInt8 255,
+     color 0 0 0 255)
+
 /-- `decode_bc1_block(data, outbuf)` -/
 def decodeBc1Block (data : Bytes) (outbuf : List UInt32) : Except Err (List UInt32) :=
   match data with
   | d0 :: d1 :: d2 :: d3 :: d4 :: d5 :: d6 :: d7 :: _ =>
     let q0 : UInt16 := d0.toUInt16 ||| (d1.toUInt16 <<< 8)
     let q1 : UInt16 := d2.toUInt16 ||| (d3.toUInt16 <<< 8)
-    let (r0, g0, b0) := rgb565le q0
-    let (r1, g1, b1) := rgb565le q1
-    let c0 := color r0 g0 b0 255
-    let c1 := color r1 g1 b1 255
-    let r0 := r0.toUInt16; let g0 := g0.toUInt16; let b0 := b0.toUInt16
-    let r1 := r1.toUInt16; let g1 := g1.toUInt16; let b1 := b1.toUInt16
-    let c23 : UInt32 × UInt32 :=
-      if q0 > q1 then
-        (color ((r0 * 2 + r1) / 3).toUInt8 ((g0 * 2 + g1) / 3).toUInt8 ((b0 * 2 + b1) / 3).toUInt8 255,
-         color ((r0 + r1 * 2) / 3).toUInt8 ((g0 + g1 * 2) / 3).toUInt8 ((b0 + b1 * 2) / 3).toUInt8 255)
-      else
-        (color ((r0 + r1) / 2).toUInt8 ((g0 + g1) / 2).toUInt8 ((b0 + b1) / 2).toUInt8 255,
-         color 0 0 0 255)
+    let c := bc1Palette q0 q1
     let d : UInt64 :=
       (d4.toUInt32 ||| (d5.toUInt32 <<< 8) ||| (d6.toUInt32 <<< 16) ||| (d7.toUInt32 <<< 24)).toUInt64
     if outbuf.length < 16 then .error .panic   -- `outbuf[i]`, i < 16
-    else .ok (bc1Fill (pick4 c0 c1 c23.1 c23.2) 16 d outbuf)
+    else .ok (bc1Fill (pick4 c.1 c.2.1 c.2.2.1 c.2.2.2) 16 d outbuf)
   | _ => .error .panic                          -- `data[k]`, k < 8
 
 /-- `outbuf.iter_mut().for_each(|p| { *p = (*p & mask) | ((a[d & 7] as u32) << shift); d >>= 3; })` -/
@@ -78,19 +84,20 @@ def alphaFill (a : UInt64 → UInt16) (mask shift : UInt32) : UInt64 → List UI
   | _, [] => []
   | d, p :: ps => ((p &&& mask) ||| ((a d).toUInt32 <<< shift)) :: alphaFill a mask shift (d >>> 3) ps
 
+/-- the palette `a : [u16; 8]` of `decode_bc3_alpha`, indexed by `d & 7` -/
+def bc3AlphaPalette (a0 a1 : UInt16) : UInt64 → UInt16 :=
+  if a0 > a1 then
+    pick8 a0 a1 ((a0 * 6 + a1) / 7) ((a0 * 5 + a1 * 2) / 7) ((a0 * 4 + a1 * 3) / 7)
+      ((a0 * 3 + a1 * 4) / 7) ((a0 * 2 + a1 * 5) / 7) ((a0 + a1 * 6) / 7)
+  else
+    pick8 a0 a1 ((a0 * 4 + a1) / 5) ((a0 * 3 + a1 * 2) / 5) ((a0 * 2 + a1 * 3) / 5)
+      ((a0 + a1 * 4) / 5) 0 255
+
 /-- `decode_bc3_alpha(data, outbuf, channel)` (`channel` ∈ {1,2,3} at the call sites) -/
 def decodeBc3Alpha (data : Bytes) (outbuf : List UInt32) (channel : UInt32) : Except Err (List UInt32) :=
   match data with
   | d0 :: d1 :: d2 :: d3 :: d4 :: d5 :: d6 :: d7 :: _ =>
-    let a0 : UInt16 := d0.toUInt16
-    let a1 : UInt16 := d1.toUInt16
-    let a : UInt64 → UInt16 :=
-      if a0 > a1 then
-        pick8 a0 a1 ((a0 * 6 + a1) / 7) ((a0 * 5 + a1 * 2) / 7) ((a0 * 4 + a1 * 3) / 7)
-          ((a0 * 3 + a1 * 4) / 7) ((a0 * 2 + a1 * 5) / 7) ((a0 + a1 * 6) / 7)
-      else
-        pick8 a0 a1 ((a0 * 4 + a1) / 5) ((a0 * 3 + a1 * 2) / 5) ((a0 * 2 + a1 * 3) / 5)
-          ((a0 + a1 * 4) / 5) 0 255
+    let a := bc3AlphaPalette d0.toUInt16 d1.toUInt16
     let d : UInt64 :=
       (d0.toUInt64 ||| (d1.toUInt64 <<< 8) ||| (d2.toUInt64 <<< 16) ||| (d3.toUInt64 <<< 24) |||
        (d4.toUInt64 <<< 32) ||| (d5.toUInt64 <<< 40) ||| (d6.toUInt64 <<< 48) ||| (d7.toUInt64 <<< 56)) >>> 16
